@@ -171,18 +171,23 @@ PROPS["C07"] = {
         "<ec_core::operator::selector::{best::Best,worst::Worst} as Selector<P>>::select for [i32;N] and Vec<EcIndividual<u8,TestResults<{Score,Error}<i64>>>>",
         "<ec_core::individual::ec::EcIndividual as Ord>::cmp, <TestResults as Ord>::cmp, Error's reversed Ord",
         "<tournament::Tournament as Selector<[LI;N]>>::select with rand 0.9.0 IndexedRandom::choose_multiple + Iterator::max (LI = harness individual whose Ord logs the ids compared)",
+        "MIR engine bin/mirtour (z3): <Tournament as Selector<P>>::select executed from MIR with choose_multiple replaced by its contract and Iterator::max by a symbolic choice of the winning element",
     ],
+    "mirtour": {"quick": 4, "thorough": 5},
     "bounds": {
         "quick": "every random stream; Best/Worst maximal/minimal over populations of 1..=4 symbolic values (i32, and individuals with symbolic i64 totals in "
                  "both polarities, ties included); tournament (n,k) in {(1,1),(2,1),(2,2),(3,1),(3,2),(3,3),(4,2),(4,3)} with symbolic u8 values: the set of "
                  "individuals compared has exactly k distinct members, the winner is its best, hence beats >= k-1 others, k = n is best selection; "
-                 "a cover per k-subset class that it can be the sampled set; sampled set independent of the values for (3,2),(4,2) on a shared symbolic tape",
-        "thorough": "as quick plus (4,1),(4,4),(5,2),(5,3),(5,4) and independence for (4,3),(3,1)",
+                 "a cover per k-subset class that it can be the sampled set; sampled set independent of the values for (3,2),(4,2) on a shared symbolic tape. MIR engine (z3): populations of N <= 4 individuals with SYMBOLIC unbounded order values and SYMBOLIC identities (ties and equal duplicates), every K in 1..=N+1, every outcome of the without-replacement draw (every subset; every order of it for N <= 4): K > N <=> TournamentSizeError(K, N) and no panic; the winner is at least as good as K-1 other members; K = N returns a maximal individual; for N <= 4 and each of the 1/3/13/75 tie patterns the winner's value is distributed exactly as the best of a uniformly random K-subset (exact rationals, every modelled draw outcome equally likely; K = 1: uniform choice)",
+        "thorough": "as quick plus (4,1),(4,4),(5,2),(5,3),(5,4) and independence for (4,3),(3,1). MIR engine (z3): populations of N <= 5 individuals with SYMBOLIC unbounded order values and SYMBOLIC identities (ties and equal duplicates), every K in 1..=N+1, every outcome of the without-replacement draw (every subset; every order of it for N <= 4): K > N <=> TournamentSizeError(K, N) and no panic; the winner is at least as good as K-1 other members; K = N returns a maximal individual; for N <= 4 and each of the 1/3/13/75 tie patterns the winner's value is distributed exactly as the best of a uniformly random K-subset (exact rationals, every modelled draw outcome equally likely; K = 1: uniform choice)",
     },
     "outside": "'every k-subset equally likely' is REDUCED, not decided: the solver shows the repository hands the whole population and k to rand's "
                "without-replacement sampler and takes the max, and that every k-subset can occur; equal likelihood is rand's documented contract "
-               "(a biased full-support sampler substituted inside rand would not be caught). Populations larger than 5.",
-    "assumptions": ["rand 0.9.0 choose_multiple samples k-subsets uniformly (documented contract, not re-proved)"],
+               "(a biased full-support sampler substituted inside rand would not be caught); GIVEN that contract the MIR engine decides the winner's distribution exactly (N <= 4). Populations larger than 5.",
+    "assumptions": ["rand 0.9.0 choose_multiple samples k-subsets uniformly (documented contract, not re-proved)",
+                    "bin/mirtour: rustc MIR (nightly, -Zunpretty=mir) is the semantics of the source; callee models (not executed): IndexedRandom::choose_multiple = its contract (a distinct positions, "
+                    "every a-subset equally likely, any order), Iterator::max/min = last maximal / first minimal element as in std, equality of individuals = identity with equal identity => equal order value, "
+                    "Population::size, AsRef<[I]>, NonZero -> usize, TournamentSizeError::new, Option::ok_or_else; an unknown statement or callee makes the run inconclusive (exit 2), never a pass"],
     "cover_replay_tests": {"tournament": "c07::tournament_subsets_reachable"},
 }
 
